@@ -1117,12 +1117,14 @@ func minimiseAndReplay(bi *buildInfo, in *info, prop string, seed uint64, f foun
 	}
 	for attempt := 0; attempt < 2; attempt++ {
 		for k := 0; k < tries; k++ {
-			rc := exec.Command(bi.Worker, "replay", "--file", orig, "--tmp", filepath.Join(tmp, "shrink", "r"))
+			rc := exec.Command(bi.Worker, "replay", "--file", orig, "--tmp", filepath.Join(tmp, "shrink", fmt.Sprintf("r%d_%d_%d", f.Run, attempt, k)))
 			rc.Env = env
-			err := rc.Run()
+			out, err := rc.CombinedOutput()
 			if ee, ok := err.(*exec.ExitError); ok && ee.ExitCode() == 1 {
 				return orig, true
 			}
+			// say what the replay did instead (exit status and the end of its output), so that an UNREPRODUCIBLE line can be understood
+			fmt.Fprintf(os.Stderr, "check: replay of run %d (attempt %d, try %d) did not show %s/%s: %v; output ends: %s\n", f.Run, attempt, k, f.V.Clause, f.V.Sig, err, tail(string(out), 3))
 		}
 		// the minimised case does not replay: fall back to the unminimised one
 		if attempt == 0 {
